@@ -13,6 +13,27 @@ from props import pycommon
 LANGS = ["c", "go", "py"]
 
 
+# Schemas compiled EARLIER in the same process, chosen to leave something behind if any state outlives a compilation: a pending
+# trailing comment (with and without final newline, after the closing brace), options that change names, definitions with the
+# names the generator uses, and compilations that FAIL half way (inside a message, an enum, a string, an import).
+RESIDUE = [
+    ("trailing-comment-no-newline", "proto residue_a\nmessage Holder { uint3 a = 1 }\n// pending trailing comment of an earlier file"),
+    ("trailing-comment", "proto residue_b\nmessage Holder { uint3 a = 1 }\n// pending trailing comment of an earlier file\n"),
+    ("inline-comment-after-brace", "proto residue_c\nmessage Holder { uint3 a = 1 } // inline comment after the last brace\n"),
+    ("comment-after-proto-only", "proto residue_d\n// a file that holds nothing but a comment\n"),
+    ("name-prefix-and-packing", "proto residue_e\noption c.name_prefix = \"zz_\"\noption c.struct_packing_alignment = 2\noption py.module_name = \"other_mod\"\n"
+                                "message Holder { uint3 a = 1 }\n"),
+    ("every-kind", "proto residue_f\nconst WIDTH = 5\nenum Kind : uint3 { KIND_A = 0; KIND_B = 1 }\ntype Row = uint7[WIDTH]\n"
+                   "message Holder' { Row r = 1; Kind k = 2; byte[WIDTH]' b = 3; message Inner { bool f = 1 }; Inner i = 4 }\n"),
+    ("fails-inside-message", "proto residue_g\nmessage Holder {\n    uint3 a = 1\n    // comment inside\n    Unknown u = 2\n}\n"),
+    ("cut-off-inside-enum", "proto residue_h\nmessage Holder { uint3 a = 1 }\nenum Kind : uint3 {\n    // comment before the end of input\n    KIND_A = 0\n"),
+    ("unterminated-string", "proto residue_i\n// doc\nconst TEXT = \"unterminated\nmessage Holder { uint3 a = 1 }\n"),
+    ("missing-import", "proto residue_j\n// doc comment before a failing import\nimport \"no_such_file.bitproto\"\nmessage Holder { uint3 a = 1 }\n"),
+    ("illegal-character", "proto residue_k\nmessage Holder { uint3 a = 1 }\n// comment\n$\n"),
+    ("nested-failure", "proto residue_l\nmessage Outer { message Inner { enum Deep : uint2 { DEEP_A = 0 }\n // comment\n Deep d = 1; Deep d = 2 } }\n"),
+]
+
+
 def digest_dir(d):
     out = {}
     for n in sorted(os.listdir(d)):
@@ -153,6 +174,37 @@ def worker(ctx):
                     os.makedirs(od)
                     sut_compiler.render_file(proto, lang, od)
                     compare(f"one-parse-many-renders:{order}", lang, False, digest_dir(od))
+            # after an earlier compilation that may leave something behind (pending comments, options, open scopes, a failure)
+            for j in range(2 if ctx.quick else 4):
+                rname, rtext = RESIDUE[(case_id * 2 + j) % len(RESIDUE)]
+                rdir = os.path.join(top, f"residue-{j}")
+                os.makedirs(rdir)
+                rpath = os.path.join(rdir, "residue.bitproto")
+                with open(rpath, "w") as fh:
+                    fh.write(rtext)
+                lang, opt = modes[(case_id + j) % len(modes)]
+                try:
+                    rp = sut_compiler.parse_file(rpath)
+                    for l2 in LANGS:
+                        os.makedirs(os.path.join(rdir, l2))
+                        sut_compiler.render_file(rp, l2, os.path.join(rdir, l2))
+                    res.count("residue_compilations_succeeded")
+                except Exception as e:
+                    if not type(e).__module__.startswith("bitproto") and not isinstance(e, OSError):
+                        raise
+                    res.count("residue_compilations_failed_as_intended")
+                od = os.path.join(top, f"after-residue-{j}")
+                os.makedirs(od)
+                try:
+                    proto = sut_compiler.parse_file(main, traditional=opt)
+                    sut_compiler.render_file(proto, lang, od, optimize=opt)
+                    dig = digest_dir(od)
+                except Exception as e:
+                    if not type(e).__module__.startswith("bitproto"):
+                        raise
+                    dig = None
+                res.count("after_residue_variants")
+                compare(f"after-earlier-compilation:{rname}", lang, opt, dig)
             # interleaved with the previous schema: parse A, parse B, render A, render B
             if prev is not None and os.path.exists(prev):
                 try:
@@ -195,8 +247,11 @@ if __name__ == "__main__":
               "fresh CLI processes with PYTHONHASHSEED 0/1/2/random, relative path + other cwd, -q + other output directory, a cwd holding different "
               "files under every relative import path of the schema (decoys), default output "
               "directory; in-process repeats in forward and reverse language order, one parse rendered for all languages in both orders, "
-              "parse A/parse B/render B/render A interleaving with the previous schema; sha256 of every generated file compared; the "
+              "parse A/parse B/render B/render A interleaving with the previous schema; compilation right after an earlier compilation chosen to leave state "
+              "behind (file ending in a comment with/without newline, comment after the last brace, name-changing options, every definition kind, "
+              "and compilations that fail inside a message/enum/string/import or at an illegal character); sha256 of every generated file compared; the "
               "cache-coherence monitor recomputes every memoised AST method on every call; non-trivial/distinct as in C01"),
         assumptions=["the generated files are the only observable output that matters (stderr lint text is not compared)"],
-        required_counters=["variants_compared", "cli_compilations", "decoy_cwd_variants"],
+        required_counters=["variants_compared", "cli_compilations", "decoy_cwd_variants", "after_residue_variants", "residue_compilations_succeeded",
+                           "residue_compilations_failed_as_intended"],
     )
